@@ -198,20 +198,53 @@ fn ceil(s: &str, mut i: usize) -> usize {
 
 fn check_c14(g: &G, sel: u64, mut vd: Verdict) -> Verdict {
     let src = &g.out;
-    if g.dels.is_empty() {
+    // the closing parentheses of calls / definitions: truncating right before one leaves a ')' open at end of input
+    let rparens: Vec<(usize, bool)> = g.marks.iter().filter_map(|m| match m.kind { MK::Delim("RPAREN", hidden) => Some((m.off, hidden)), _ => None }).collect();
+    let total = g.dels.len() + rparens.len();
+    if total == 0 {
         vd.discard = Some("program has no deletable mandatory delimiter");
         return vd;
     }
-    let d = g.dels[((sel as usize) * g.dels.len()) >> 16].clone();
-    let b = src.as_bytes();
-    let ws_adj = (d.off > 0 && (b[d.off - 1] as char).is_ascii_whitespace()) || (d.off + d.len < b.len() && (b[d.off + d.len] as char).is_ascii_whitespace());
-    if !ws_adj {
-        vd.discard = Some("no whitespace adjacent to the delimiter (neighbours would glue into another token)");
+    let pick = ((sel as usize) * total) >> 16;
+    if pick >= g.dels.len() {
+        let (off, hidden) = rparens[pick - g.dels.len()];
+        let m = src[..off].to_string();
+        vd.key = m.clone();
+        vd.label("truncated-before:RPAREN");
+        let r = match lex(Variant::Rel, &m) {
+            Lexed::Ok(r) if !r.verif.budget_exceeded => r,
+            _ => {
+                vd.discard = Some("no result (C01 territory)");
+                return vd;
+            }
+        };
+        let exp = m.len();
+        let has_err = r.errs.iter().any(|e| e.k == crate::api::EK::MissingExpectedRParen && e.b as usize == exp);
+        let has_tok = r.toks.iter().any(|t| t.t == T::RPAREN && t.b as usize == exp && t.empty() && (t.ch == Ch::HIDDEN) == hidden);
+        let show = format!("{}⟦end of input before ')'⟧", &m[floor(&m, m.len().saturating_sub(40))..]);
+        if !has_err {
+            vd.violations.push(Violation::new("C14", "not-diagnosed", "not-diagnosed:MissingExpectedRParen:at-eof", format!("expected MissingExpectedRParen at end of input (byte {exp}): {show}; errors: {:?}", r.errs.iter().map(|e| (e.k, e.b)).collect::<Vec<_>>())));
+        } else if !has_tok {
+            vd.violations.push(Violation::new("C14", "no-recovery-token", "no-recovery-token:RPAREN:at-eof", format!("expected zero-width RPAREN (hidden={hidden}) at end of input (byte {exp}): {show}")));
+        }
+        vd.nontrivial = true;
         return vd;
     }
+    let d = g.dels[pick].clone();
+    let b = src.as_bytes();
+    let ws_adj = (d.off > 0 && (b[d.off - 1] as char).is_ascii_whitespace()) || (d.off + d.len < b.len() && (b[d.off + d.len] as char).is_ascii_whitespace());
     let mut m = src.clone();
-    m.replace_range(d.off..d.off + d.len, "");
-    let exp = expected_offset(g, &d, &m);
+    // the delimiter is left out; without whitespace next to it a blank takes its place, otherwise
+    // the neighbours would glue into another token (comments do not end a name expression)
+    let fill = if ws_adj { "" } else { " " };
+    if !ws_adj {
+        vd.label("blank-in-place-of-delimiter");
+    }
+    m.replace_range(d.off..d.off + d.len, fill);
+    let exp = match d.at_mark {
+        Some(a) => g.anchors[a] - d.len + fill.len(),
+        None => expected_offset(g, &d, &m),
+    };
     let at_eof = exp >= m.len();
     if !at_eof && d.at_mark.is_none() && m[exp..].starts_with(&src[d.off..d.off + d.len]) {
         vd.discard = Some("the next significant character is the same delimiter");
